@@ -30,6 +30,10 @@ def run(chk):
     surface(chk, repo, d, eq)
     bc_table(chk, repo, d, eq)
     interfaces(chk, repo, d, eq)
+    from . import legacy_solver
+    legacy_solver.surface(chk, repo, d, 'R02.6')
+    legacy_solver.driver_bc(chk, repo, d, 'R02.6')
+    chk.floor('R02.6', 19)
     chk.floor('R02.1', 6); chk.floor('R02.2', 10); chk.floor('R02.3', 16); chk.floor('R02.4', 40); chk.floor('R02.5', 16)
     chk.assume('gravity, densities, G > 0; layer solutions arbitrary complex numbers (generic: the denominators y4 of the third solid solution and lambda_2 are non-zero)')
 
@@ -164,6 +168,11 @@ def interfaces(chk, repo, d, eq):
     if dens_if is None or not grav_assign:
         raise AnalysisError('cf_radial_solver: interface density/gravity selection not found')
     it = Interp(repo)
+    try:
+        mleg = repo.by_path('TidalPy/radial_solver/numerical/interfaces/__init__.py')
+        legacy = (mleg, need_func(mleg, 'find_interface_func'))
+    except AnalysisError:
+        legacy = None
     for (lk, ls) in KINDS:
         for (uk, us) in KINDS:
             lab = f'lower {lk}/{"static" if ls else "dynamic"} -> upper {uk}/{"static" if us else "dynamic"}'
@@ -195,6 +204,24 @@ def interfaces(chk, repo, d, eq):
                    (f'undefined slots {missing}; ' if missing else '') + (f'writes beyond the 18-slot buffer {beyond}' if beyond else ''), mi.where(fup), key=f'R02.3|{lab}', method='store map of the abstract interpreter')
             if missing:
                 continue
+            # R02.6 sibling agreement: the interpreted solver package's interface function for the same pair of assumptions maps the same lower values to the
+            # same starting block (so the continuity proof below covers it as well)
+            if legacy is not None:
+                try:
+                    lf, lextra = it.call(legacy[0], legacy[1], [lk == 'solid', ls, uk == 'solid', us], {'static_liquid_density': dens_arg, 'interface_gravity': g_up_sel, 'G_to_use': G})
+                    L2 = Arr('lower_ys', default=lambda k: (X.atom(f'L[{k[0]}][{k[1]}]', 'complex') if isinstance(k, tuple)
+                                                           else Arr(f'lower_ys[{k}]', default=lambda j, k=k: X.atom(f'L[{k}][{j}]', 'complex'))))
+                    lout = it.call(lf.mod, lf.node, [L2] + list(lextra))
+                    bad6 = []
+                    for j in range(nu):
+                        for i in range(len(su)):
+                            gv = lout.store.get((j, i)) if isinstance(lout, Arr) else None
+                            if gv is None or not d.equal(gv, U.store[j * MAXY + i]):
+                                bad6.append(f'[{j}][{i}]')
+                    chk.ob('R02.6', f'{lab}: legacy interface function {lf.mod.name.split(".")[-1]}.{lf.node.name} == cf_solve_upper_y_at_interface on the same lower values', not bad6,
+                           f'elements differ: {bad6[:6]}', lf.mod.where(lf.node), key=f'R02.6|{lab}', method='interpretation of both implementations + GF(p^2) PIT')
+                except AnalysisError as ex:
+                    raise AnalysisError(f'legacy interface {lab}: {ex}')
             # downward: constants
             Cup = [X.atom(f'Cup{j}', 'complex') for j in range(nu)]
             cabove = Arr('cabove', default=lambda k: Cup[k] if k < nu else Opaque('nan'))
